@@ -349,7 +349,9 @@ def run(ctx):
         reps, catalog = 8, 0
         hs = HASHSEEDS + ["2", "4294967295", "random", "random"]
     cfgs = make_cfgs(ctx, seeds, hs, reps, catalog)
-    results = run_configs(cfgs)
+    ctx.log("self-checks done; running %d processes" % len(cfgs))
+    results = run_configs(cfgs, par=16)
+    ctx.log("processes done")
     ctx.sample({"run_config": cfgs[1], "n_arrays": len(results[1].get("items", {})), "meta": results[1].get("meta")})
     mism = compare_runs(ctx, cfgs, results, "seeded program")
     found = report_witnesses(ctx, mism)
@@ -357,13 +359,14 @@ def run(ctx):
     if ctx.broken and not ctx.witnesses:
         ctx.log("violation search: %d broken item(s), no difference in the first batch; running more processes" % len(ctx.broken))
         ref = [(c, r) for c, r in zip(cfgs, results) if "error" not in r]
-        rounds = 3 if ctx.quick else 6
+        rounds = 2 if ctx.quick else 8
         for rnd in range(rounds):
             time.sleep(1.1)                       # a clock-derived seed changes at least every second
             extra = []
             for s in seeds[:2]:
-                for h in ("random", str(ctx.rng.randrange(0, 2 ** 32)), "0"):
-                    extra.append({"seed": s, "hashseed": h, "perturb": ctx.rng.randrange(1, 5000), "reps": reps, "catalog": catalog})
+                for h in ("random", str(ctx.rng.randrange(0, 2 ** 32))):
+                    # no op catalogue / one repetition: the search concentrates on the seeded body, with large layout perturbations
+                    extra.append({"seed": s, "hashseed": h, "perturb": ctx.rng.randrange(1, 20000), "reps": 1, "catalog": -1})
             rs = run_configs(extra)
             m2 = []
             for c, r in zip(extra, rs):
@@ -372,11 +375,12 @@ def run(ctx):
                 for (c0, r0) in ref:
                     if c0["seed"] != c["seed"]:
                         continue
-                    for k in sorted(set(r0["items"]) | set(r["items"])):
+                    for k in sorted(set(r0["items"]) & set(r["items"])):
                         if r0["items"].get(k) != r["items"].get(k):
                             m2.append({"runs": [c0, c], "items": [k, k], "hashes": [r0["items"].get(k), r["items"].get(k)]})
                     break
             ctx.extra["search_rounds"] = rnd + 1
+            ctx.log("search round %d: %d differing item(s)" % (rnd + 1, len(m2)))
             if m2:
                 report_witnesses(ctx, m2)
                 break
